@@ -27,10 +27,11 @@ ASSUMPTIONS = [
     'hash-map iteration order is arbitrary: theorems hold for every order; the check compares entry multisets',
 ]
 
-PROBES = ['$', '@debug $', '$ + 1', '$ 2', '($ 2) 3', '$ to 2 dp', '$ == L$', '(\\q.q) $']
+PROBES = ['$', '@debug $', '$ + 1', '$ 2', '($ 2) 3', '$ to 2 dp', '$ == L$', '(\\q.q) $', 'sample $', '(sample $) + 10 (sample ($ + $))', '$ 1']
 DEBUG_IDX = 1
 KNOWN_MISSING = {'mean', 'arg', 'floor', 'ceil', 'round'}
-NONTRIVIAL_KINDS = {'number-with-unit', 'number-in-base', 'date', 'dist', 'lambda', 'closure-with-scope', 'builtin',
+NONTRIVIAL_KINDS = {'string-long', 'number-big', 'dist-big', 'dist-unsorted', 'many-variables', 'closure-higher-order',
+                    'number-with-unit', 'number-in-base', 'date', 'dist', 'lambda', 'closure-with-scope', 'builtin',
                     'misc-unit-object-format-base', 'derived', 'number-complex-or-irrational', 'string'}
 
 def inconclusive(p):
@@ -76,9 +77,14 @@ def check(c):
     nrand = 500 if c.tier == 'quick' else 8000
     for _ in range(nrand):
         hist.append(S.gen_history(r, builtins))
+    for _ in range(nrand // 8):
+        st, names = S.gen_higher_order(r)
+        if r.random() < 0.6:
+            st = S.with_globals(r, st)
+        hist.append((st, names, ['closure-higher-order'] * len(names)))
 
     # ---- 1. save --------------------------------------------------------
-    saved = c.impl(S.AREA, [sx([Sym('save')] + h[0]) for h in hist], timeout=40)
+    saved = c.impl(S.AREA, [sx([Sym('save')] + h[0]) for h in hist], timeout=120)
     cases = []
     for h, o in zip(hist, saved):
         p = try_parse(o)
@@ -111,8 +117,8 @@ def check(c):
     mt, mf = mo[:len(lt)], mo[len(lt):2 * len(lt)]
     m2 = dict(zip(idx2, mo[2 * len(lt):]))
     # ---- 4. behaviour before / after ------------------------------------
-    live = c.impl(S.AREA, [sx([Sym('live'), k['names'], PROBES, k['stmts'], S.renamed(k['stmts'])]) for k in cases], timeout=40)
-    loaded = c.impl(S.AREA, [sx([Sym('loaded'), k['img'], k['names'], PROBES, S.renamed(k['stmts'])]) for k in cases], timeout=40)
+    live = c.impl(S.AREA, [sx([Sym('live'), k['names'], PROBES, k['stmts'], S.renamed(k['stmts'])]) for k in cases], timeout=120)
+    loaded = c.impl(S.AREA, [sx([Sym('loaded'), k['img'], k['names'], PROBES, S.renamed(k['stmts'])]) for k in cases], timeout=120)
 
     sampled = 0
     for i, k in enumerate(cases):
@@ -161,6 +167,10 @@ def check(c):
             pa = try_parse(loaded[i])
             if not (isinstance(pv, list) and pv[0] == b'ok' and isinstance(pa, list) and pa[0] == b'ok'):
                 why = 'probe run failed: before=%s after=%s' % (live[i][:80], loaded[i][:80])
+            elif [x[0] for x in pv[2]] != [x[0] for x in k['results']] or [x[0] for x in pv[3]] != [x[0] for x in pa[2]]:
+                # a statement ran into the evaluation deadline in one run and not in the other (slow value,
+                # loaded machine): the two contexts are not comparable - inconclusive, not a verdict
+                c.dist['inconclusive-deadline'] = c.dist.get('inconclusive-deadline', 0) + 1
             else:
                 for n, before, after in zip(k['names'], pv[1], pa[1]):
                     for j, (x, y) in enumerate(zip(before, after)):
